@@ -263,12 +263,14 @@ class MediaRequestBase(RequestHandlerBase):
         if representation.encrypted:
             traf_modified = self.update_traf_if_required(options, traf)
             moof_modified = moof_modified or traf_modified
-        if moof_modified:
-            tfhd = traf.find_child('tfhd')
-            if tfhd is not None:
-                # force base_data_offset to be re-calculated when the
-                # tfhd box is encoded
-                tfhd.base_data_offset = None
+        tfhd = traf.find_child('tfhd')
+        if tfhd is not None and (
+                moof_modified or
+                (tfhd.flags & tfhd.base_data_offset_present) != 0):
+            # force base_data_offset to be re-calculated when the
+            # tfhd box is encoded. An explicit offset is a position in
+            # the stored file, which means nothing in the served segment
+            tfhd.base_data_offset = None
         if traf_modified:
             saio = traf.find_child('saio')
             senc = traf.find_child('senc')
